@@ -238,10 +238,18 @@ class Check:
                 self.obligations.append((n, False, "props file failed: " + out[-300:]))
             self.broken_obligation = {"where": props_file, "log_tail": out[-1500:]}
             return False
-        for ax in re.findall(r"^([A-Z]\w+(?:\.\w+)+)\s*:", out, re.M):
-            self.axioms.add(ax)
-        for ax in re.findall(r"^(\w+(?:\.\w+)*)\s*$", out, re.M):
-            pass
+        in_ax = False
+        for ln in out.split("\n"):
+            if ln.startswith("Axioms:"):
+                in_ax = True
+                continue
+            if ln.startswith("Closed under"):
+                in_ax = False
+                continue
+            if in_ax and ln and not ln[0].isspace():
+                mm = re.match(r"^([\w.']+)", ln)
+                if mm:
+                    self.axioms.add(mm.group(1))
         for n in names:
             self.obligations.append((n, True, ""))
         self.props_output = out
